@@ -132,6 +132,7 @@ def run(ctx):
     reach = common.checked_reach(cg, prog) if roots else {}
     cg.require_resolved(within=set(reach))
     ba = BoundsAnalysis(prog, cg)
+    BA[0] = ba
     ba.field_bounds = derive_limits(ctx, prog, cg, ba)
     # ---- side conditions of the exceptions -------------------------------------------------------
     exc = {(r['function'], r['entity']): r for r in load_exceptions('A4')}
@@ -177,7 +178,7 @@ def run(ctx):
             seen[(o.kind, o.text)] = i + 1
             k = '%s[%s:%s#%d]' % (o.kind, f.name, o.text, i)
             if not o.ok:
-                row = exc.get((f.name, o.text)) or semantic_row(exc, f, o)
+                row = exc.get((f.name, o.text)) or semantic_row(exc, prog, f, o)
                 if row is not None:
                     sc_ok, sc_how = side_condition(ctx, prog, f, o, row)
                     if sc_ok:
@@ -350,10 +351,19 @@ def store_base(o):
     return d['id'] if d is not None else None
 
 
-def semantic_row(exc, f, o):
-    """exceptions that name their entity by role instead of by source text, so that renaming a variable or
-    rewriting an index expression does not change what the exception is about"""
+BA = [None]
+
+
+def semantic_row(exc, prog, f, o):
+    """exceptions that name their entity by role instead of by source text, so that renaming a variable,
+    rewriting an index expression or moving the statement into a file-local helper does not change what the
+    exception is about"""
     for (fn, _), row in exc.items():
+        if row.get('entity_by') == 'fread-chunks' and o.kind == 'write' and o.node.k == 'CallExpr' and \
+                o.node.get('callee') == 'fread':
+            owner = prog.func(fn)
+            if owner is not None and f in common.with_helpers(prog, owner):
+                return row
         if fn != f.name or row.get('entity_by') != 'csv-slots' or o.kind != 'write':
             continue
         sa = csv_slot_array(f)
@@ -423,16 +433,23 @@ def side_condition(ctx, prog, f, o, row):
         call = o.node
         n = (strip(arg(call, 1)).get('v') or 0) * (strip(arg(call, 2)).get('v') or 0)
         cap = None
-        for m in f.calls('malloc'):
-            d = decl_of(arg(call, 0)) or decl_of(strip(arg(call, 0)).ch[0] if strip(arg(call, 0)).ch else None)
-            v = strip(arg(m, 0)).get('v')
-            if v is not None and common.holder(f, m) is not None:
-                cap = v if cap is None else max(cap, v)
+        d = decl_of(arg(call, 0)) or decl_of(strip(arg(call, 0)).ch[0] if strip(arg(call, 0)).ch else None)
+        if d is not None and d.get('kind') == 'parm' and BA[0] is not None:
+            # the loop lives in a file-local helper: the capacity is what every call site hands in
+            cap = BA[0].preconditions(f)[1].get(d.get('index'))
+        else:
+            for m in f.calls('malloc'):
+                v = strip(arg(m, 0)).get('v')
+                if v is not None and common.holder(f, m) is not None and (d is None or common.holder(f, m) == d['id']):
+                    cap = v if cap is None else max(cap, v)
         short_break = any(b.cond is not None and any(x.k == 'BinaryOperator' and x['op'] == '<' and
                                                        strip(x.ch[1]).get('v') == n for x in b.cond.walk())
                           for b in f.blocks.values())
-        ok = bool(n) and cap is not None and cap % n == 0 and short_break and C.in_loop(f, call)
-        return ok, 'chunk %s divides capacity %s, loop leaves on a short read' % (n, cap)
+        # the loop is entered only while the running total is below the capacity
+        bounded = any(b.cond is not None and strip(b.cond).k == 'BinaryOperator' and strip(b.cond)['op'] == '<' and
+                      strip(strip(b.cond).ch[1]).get('v') == cap and C.in_loop(f, b.cond) for b in f.blocks.values())
+        ok = bool(n) and cap is not None and cap % n == 0 and short_break and bounded and C.in_loop(f, call)
+        return ok, 'chunk %s divides capacity %s, the loop runs while the total is below it and leaves on a short read' % (n, cap)
     if sc == 'csv-count':
         return csv_side_condition(f, o)
     return True, 'no side condition'
